@@ -14,7 +14,7 @@ RULE = ('one case = one scripted server presenting chosen public-key blobs durin
         'signed by RSA (1024..8192), Ed25519 and ECDSA (P-256/384/521) CAs; text, verbose and JSON.  Oracle: reported size == bit length of the presented modulus (independent blob parser), CA type/size likewise, fingerprints == '
         'hashlib SHA-256/MD5 of the presented blob (one RSA-family entry, none for certificates), differential threshold oracle on the notes relative to the baseline.  Non-trivial: probe answered and a size or fingerprint compared; '
         'distinct = distinct (blob set, name list, rendering)')
-REQUIRED = {'two_certificates_one_server': 5, 'certificate_field_variants': 10, 'probes_refused_after_small_key': 6, 'cert_beside_plain_rsa': 10, 'plain_beside_cert_checks': 20, 'sizes_compared': 40, 'fingerprints_compared': 40, 'threshold_checks': 40, 'below_2048': 5, 'warn_band': 5, 'ca_checks': 8, 'json_runs': 10}
+REQUIRED = {'first_probe_failed_midway': 4, 'two_certificates_one_server': 5, 'certificate_field_variants': 10, 'probes_refused_after_small_key': 6, 'cert_beside_plain_rsa': 10, 'plain_beside_cert_checks': 20, 'sizes_compared': 40, 'fingerprints_compared': 40, 'threshold_checks': 40, 'below_2048': 5, 'warn_band': 5, 'ca_checks': 8, 'json_runs': 10}
 ASSUMPTIONS = ['moduli are multiples of 64 bits as the quantifier says; sizes that are not a multiple of 16 bits form a separate sub-family run in the thorough tier only (the tool measures whole bytes)',
                'threshold oracle is differential (notes at size B minus notes at 4096 bits for the same names), so note wording is not frozen',
                'for certificates both the host key and the CA key are rated; equal warning texts may be merged by the tool, so ">= 1 extra warning" is demanded, not a count']
@@ -58,6 +58,10 @@ def cases(tier, seed):
     for i, (first, bits) in enumerate([('rsa', 1024), ('rsa', 2048), ('rsa-cert', 1024), ('rsa-cert', 2048), ('rsa', 3072)]):
         for rnd in (('text', 'json') if tier == 'thorough' else (['json', 'text'][i % 2],)):
             cs.append({'kind': 'partial', 'first': first, 'bits': bits, 'render': rnd})
+    # the first probe of the RSA family fails in the middle (the server answers the key-exchange init with a disconnect message, a malformed reply, or nothing and keeps the connection open); the next RSA name is probed on a fresh connection and measures the key
+    for i, (how, bits) in enumerate([('disconnect', 3072), ('malformed', 2048), ('stall', 1024), ('disconnect', 1024), ('malformed', 4096), ('close', 2048)]):
+        for rnd in (('text', 'json') if tier == 'thorough' else (['json', 'text'][i % 2],)):
+            cs.append({'kind': 'failfirst', 'how': how, 'bits': bits, 'render': rnd})
     # two certificates on one server, signed by CAs of the same type but different sizes (and an Ed25519 CA beside an RSA CA): each certificate reports its own CA
     for i, (ca1, ca2) in enumerate([(4096, 1024), (1024, 4096), (2048, 3072), (3072, 2048), (4096, 'ed25519'), ('ed25519', 1024)]):
         for rnd in (('text', 'json') if tier == 'thorough' else (['json', 'text'][i % 2],)):
@@ -374,6 +378,45 @@ def run_partial(c):
     return viol, counters
 
 
+def run_failfirst(c):
+    names = ['ssh-rsa', 'rsa-sha2-256', 'rsa-sha2-512', 'ssh-ed25519']
+    ops = {'disconnect': {'op': 'replace', 'hex': wire.packet(bytes([wire.MSG_DISCONNECT]) + wire.u32(2) + wire.string('no') + wire.string('')).hex()},
+           'malformed': {'op': 'replace', 'hex': wire.packet(wire.kex_reply(31, wire.string('ssh-rsa'))).hex()}, 'stall': {'op': 'stall_before'}, 'close': {'op': 'close_before'}}
+    script = {'banner': 'SSH-2.0-OpenSSH_9.1', 'kex': audit.sym_kex(['curve25519-sha256'], names, ['aes128-ctr'], ['hmac-sha2-256']),
+              'hostkeys': {n: {'type': 'rsa', 'bits': c['bits']} for n in names[:3]} | {'ssh-ed25519': {'type': 'ed25519'}}, 'gex': None, 'linger': 3,
+              'faults': [dict(ops[c['how']], conn=1, at='kexreply')]}
+    r, res, fps, p = observe(script, c['render'], names)
+    viol, counters = [], {}
+    if res is None:
+        viol.append(_v('C11/audit-failed:status%s' % r.status, 'audit did not complete', out=r.out[-300:]))
+        return viol, counters
+    if p.count('fault') == 0:
+        return None, {'why': 'the fault on the first probe was not applied'}
+    counters['first_probe_failed_midway'] = 1
+    counters['sizes_compared'] = 1
+    for n in names[:3]:
+        o = res.get(n)
+        if o is None:
+            viol.append(_v('C11/key-missing', 'advertised host key absent from the report', name=n))
+        elif c['how'] in ('stall', 'close'):
+            # no reply at all to the first RSA probe: the tool gives the RSA family up, so no RSA key was ever presented - then nothing may be claimed about it
+            if o['bits'] not in (None,) or any(kt in ('ssh-rsa', 'rsa-sha2-256', 'rsa-sha2-512') for kt, _a, _h in fps):
+                viol.append(_v('C11/size-for-unmeasured-key:rsa-family', 'a size or a fingerprint is reported for an RSA host key that was never presented', name=n, bits=o['bits'], fingerprints=[f for f in fps if f[0].startswith(('ssh-rsa', 'rsa-sha2'))][:2]))
+                break
+        elif o['bits'] != c['bits']:
+            viol.append(_v('C11/size-wrong:after-failed-probe:' + c['how'], 'the RSA key presented to the probe that followed a failed one is reported with another size (or none)', name=n, got=o['bits'], want=c['bits']))
+    want_band = band(c['bits'])
+    o = res.get('rsa-sha2-512')
+    if o is not None and o['bits'] == c['bits'] and c['how'] not in ('stall', 'close'):
+        sized = [t for t in o['notes']['fail'] + o['notes']['warn'] if 'modulus' in t]
+        if (want_band == 'none') != (not sized):
+            viol.append(_v('C11/size-rating-wrong:after-failed-probe', 'size notes of the key measured after a failed probe do not follow its size', bits=c['bits'], notes=sized))
+    e = res.get('ssh-ed25519')
+    if e is not None and (e['bits'] not in (None, 256) or any('modulus' in t for t in e['notes']['fail'] + e['notes']['warn'])):
+        viol.append(_v('C11/size-note-on-fixed-size-key:ed25519', 'a fixed-size key carries a size note', notes=e['notes'], bits=e['bits']))
+    return viol, counters
+
+
 def run_fixed(c):
     t = c['type']
     name = 'ssh-' + t
@@ -394,7 +437,7 @@ def run_fixed(c):
 
 
 def run_case(c):
-    fn = {'rsa': run_rsa, 'cert': run_cert, 'fixed': run_fixed, 'certmix': run_certmix, 'partial': run_partial, 'twocerts': run_twocerts}[c['kind']]
+    fn = {'rsa': run_rsa, 'cert': run_cert, 'fixed': run_fixed, 'certmix': run_certmix, 'partial': run_partial, 'failfirst': run_failfirst, 'twocerts': run_twocerts}[c['kind']]
     viol, counters = fn(c)
     if viol is None:
         return {'verdict': 'inconclusive', 'why': counters.get('why')}
